@@ -51,7 +51,10 @@ def run(tier: str, seed: int, t0: float) -> int:
     out: list[Violation] = []
     thorough = tier == "thorough"
     rng = random.Random(seed)
-    gb = universe.bounds(4 if not thorough else 5, chars=(97, 98))
+    # nodes and marks that differ only in an attribute value must count as different
+    LV = {"t": "link", "a": "{\"href\":\"v\"}"}
+    gb = universe.bounds(4 if not thorough else 5, chars=(97, 98), marksets=((), (universe.EM,), (universe.LINK,), (LV,)),
+                         attrs={"h": [{"level": "1"}, {"level": "2"}]})
     sch, js, docs = universe.tlc_docs("s1t", gb, stats)
     # ---- M
     mdocs = docs if len(docs) <= 150 else rng.sample(docs, 150)
